@@ -460,6 +460,7 @@ func Harness_C13_redis_vs_memory() {
 	}
 	n := verif_Bound("ops")
 	for i := 0; i < n; i++ {
+		cov := "" // cover points are passed after the comparison: never on a known finding's path
 		switch verif_Choose(12) {
 		case 0:
 			v, ttl := vals[verif_Choose(2)], symTTL()
@@ -489,8 +490,7 @@ func Harness_C13_redis_vs_memory() {
 			verif_Assert("C13.redis.append", p.mem.AppendToList("l", v) == nil)
 			verif_Assert("C13.redis.append", p.red.AppendToList("l", v) == nil)
 			if p.emptied["l"] {
-				p.emptied["l"], p.refilled["l"] = false, true
-				verif_Cover("C13.redis.refilled_list")
+				p.emptied["l"], p.refilled["l"] = false, true // (no cover point here: this is the known finding's path)
 			}
 		case 5:
 			v := vals[verif_Choose(2)]
@@ -512,7 +512,7 @@ func Harness_C13_redis_vs_memory() {
 			if p.emptied["h"] {
 				p.emptied["h"], p.refilled["h"] = false, true
 			}
-			verif_Cover("C13.redis.sethash_seen")
+			cov = "C13.redis.sethash_seen"
 		case 8:
 			f := []string{"f", "g"}[verif_Choose(2)]
 			p.mem.DeleteHash("h", f)
@@ -531,13 +531,16 @@ func Harness_C13_redis_vs_memory() {
 			p.lifetime(ttl)
 			p.mem.SetExpiration(k, ttl)
 			p.red.SetExpiration(k, ttl)
-			verif_Cover("C13.redis.expiry_changed")
+			cov = "C13.redis.expiry_changed"
 		case 11:
 			// an odd number of seconds: never exactly at an expiry instant (lifetimes are even)
 			p.advance(time.Duration(2*int64(verif_Byte())+1) * time.Second)
-			verif_Cover("C13.redis.time_passed")
+			cov = "C13.redis.time_passed"
 		}
 		p.compare("after")
+		if cov != "" {
+			verif_Cover(cov)
+		}
 	}
 	verif_Cover("C13.redis.done")
 }
